@@ -17,6 +17,38 @@ pub struct OpCase {
     pub b: String,
     #[serde(default)]
     pub note: String,
+    /// further steps applied to the result (C04 only): a walk through the
+    /// derivation graph
+    #[serde(default)]
+    pub chain: Vec<ChainStep>,
+}
+
+/// One more operator application: the running value is combined with a fresh
+/// operand.  `pick` selects among the instances that accept the running
+/// value's type (as left or right operand), in the fixed order of the
+/// instance list; `unit` and `amount` describe the fresh operand.
+#[derive(Debug, Clone, Serialize, Deserialize)]
+pub struct ChainStep {
+    pub pick: usize,
+    pub unit: usize,
+    pub amount: String,
+    pub form: u8,
+}
+
+/// Instances that can take a value of type `ty`: (instance index, running
+/// value is the left operand?)
+pub fn continuations(ty: usize) -> Vec<(usize, bool)> {
+    let c = ctx();
+    let mut v = vec![];
+    for (i, o) in c.ops.iter().enumerate() {
+        if o.a == ty {
+            v.push((i, true));
+        }
+        if o.b == ty && o.a != ty {
+            v.push((i, false));
+        }
+    }
+    v
 }
 
 pub struct OpEval {
